@@ -36,7 +36,8 @@ Definition send_result (n : Z) (o : outcome) : sres :=
   end.
 
 (* readiness reported by the kernel for the client's descriptor *)
-Record native := mknative { nin : bool; nout : bool; nhup : bool }.
+(* nin/nout/nhup/nrdhup/nerr = EPOLLIN / EPOLLOUT / EPOLLHUP / EPOLLRDHUP / EPOLLERR *)
+Record native := mknative { nin : bool; nout : bool; nhup : bool; nrdhup : bool; nerr : bool }.
 
 Inductive cb := OnRead | OnWrite | OnClosed.
 
@@ -76,7 +77,7 @@ Definition is_nil (l : list Z) : bool := match l with [] => true | _ => false en
 
 (* readiness of a connected stream socket whose send queue is never full *)
 Definition real_native (inbound : list Z) (peer_closed : bool) : native :=
-  mknative (negb (is_nil inbound) || peer_closed) true peer_closed.
+  mknative (negb (is_nil inbound) || peer_closed) true peer_closed peer_closed false.
 
 (* what recv(max) returns: Some r (r >= 0 ; 0 = end of stream) or None = would block *)
 Definition recv_count (inbound : list Z) (peer_closed : bool) (max : Z) : option Z :=
@@ -118,11 +119,7 @@ Definition ret_code (n : Z) (o : outcome) : Z :=
    its backlog offered to the operating system in that event - whether or not it is readable as
    well.  The read notification of the same event is delivered afterwards unless the event already
    delivered onWrite / onClosed (level-triggered readiness: it is reported again). *)
-Definition spec_deliver (t : sst) (n : native) (o : outcome) : sst * out :=
-  let want_r := negb (s_susp t) in
-  let want_w := negb (is_nil (q t)) in
-  let dr := (nin n || nhup n) && want_r in                  (* a read notification only when wanted *)
-  let dw := (nout n || negb dr && nhup n) && want_w in      (* hang-up counts as write-ready when no read is delivered *)
+Definition spec_deliver_flags (t : sst) (dr dw : bool) (o : outcome) : sst * out :=
   let rd := if dr then [OnRead] else [] in
   if dw then
     match hand_over (q t) o with
@@ -136,6 +133,13 @@ Definition spec_deliver (t : sst) (n : native) (o : outcome) : sst * out :=
     end
   else if dr then (t, out_cb OnRead)
   else (t, out_none).
+
+Definition spec_deliver (t : sst) (n : native) (o : outcome) : sst * out :=
+  let want_r := negb (s_susp t) in
+  let want_w := negb (is_nil (q t)) in
+  let dr := (nin n || nhup n || nrdhup n) && want_r in      (* a read notification only when wanted; (half-)hang-up counts as readable *)
+  let dw := (nout n || negb dr && (nhup n || nrdhup n)) && want_w in   (* hang-up counts as write-ready when no read is delivered *)
+  spec_deliver_flags t dr dw o.
 
 (* the operations whose effect does not depend on the connection still being served *)
 Definition spec_common (t : sst) (x : op) : option (sst * option out) :=
